@@ -194,3 +194,65 @@ pub fn c13_limit(m: &mut Mon, w: &mut World) {
         }
     }
 }
+
+// ---------------- C03: CID stores of produced data, re-hashed independently ----------------
+/// Recomputes the content id of every store entry with the forward (hashing) functions and checks every
+/// cross-store reference. Deliberately does not call `CidInfo::verify`, the code under test.
+pub fn verify_stores(d: &air_interpreter_data::InterpreterData) -> Result<(), String> {
+    use air_interpreter_cid::{raw_value_to_json_cid, value_to_json_cid};
+    let ci = &d.cid_info;
+    for (cid, v) in ci.value_store.iter() {
+        // a RawValue serialises transparently as the raw JSON text that was hashed
+        let raw = serde_json::to_value(&**v).ok().and_then(|x| x.as_str().map(|s| s.to_string())).ok_or_else(|| "value store: unreadable entry".to_string())?;
+        if raw_value_to_json_cid::<air_interpreter_data::RawValue>(raw.as_bytes()).get_inner() != cid.get_inner() {
+            return Err(format!("value store: entry {} does not hash to its key", cid.get_inner()));
+        }
+    }
+    for (cid, v) in ci.tetraplet_store.iter() {
+        let got = value_to_json_cid(&**v).map_err(|e| format!("{e}"))?;
+        if got.get_inner() != cid.get_inner() {
+            return Err(format!("tetraplet store: entry {} does not hash to its key", cid.get_inner()));
+        }
+    }
+    for (cid, v) in ci.canon_element_store.iter() {
+        let got = value_to_json_cid(&**v).map_err(|e| format!("{e}"))?;
+        if got.get_inner() != cid.get_inner() {
+            return Err(format!("canon element store: entry {} does not hash to its key", cid.get_inner()));
+        }
+        if ci.tetraplet_store.get(&v.tetraplet).is_none() || ci.value_store.get(&v.value).is_none() {
+            return Err(format!("canon element {}: dangling tetraplet or value reference", cid.get_inner()));
+        }
+        match &v.provenance {
+            air_interpreter_data::Provenance::Literal => {}
+            air_interpreter_data::Provenance::ServiceResult { cid: c } => {
+                if ci.service_result_store.get(c).is_none() {
+                    return Err(format!("canon element {}: dangling service result reference", cid.get_inner()));
+                }
+            }
+            air_interpreter_data::Provenance::Canon { cid: c } => {
+                if ci.canon_result_store.get(c).is_none() {
+                    return Err(format!("canon element {}: dangling canon reference", cid.get_inner()));
+                }
+            }
+        }
+    }
+    for (cid, v) in ci.canon_result_store.iter() {
+        let got = value_to_json_cid(&**v).map_err(|e| format!("{e}"))?;
+        if got.get_inner() != cid.get_inner() {
+            return Err(format!("canon result store: entry {} does not hash to its key", cid.get_inner()));
+        }
+        if ci.tetraplet_store.get(&v.tetraplet).is_none() || v.values.iter().any(|e| ci.canon_element_store.get(e).is_none()) {
+            return Err(format!("canon result {}: dangling reference", cid.get_inner()));
+        }
+    }
+    for (cid, v) in ci.service_result_store.iter() {
+        let got = value_to_json_cid(&**v).map_err(|e| format!("{e}"))?;
+        if got.get_inner() != cid.get_inner() {
+            return Err(format!("service result store: entry {} does not hash to its key", cid.get_inner()));
+        }
+        if ci.tetraplet_store.get(&v.tetraplet_cid).is_none() || ci.value_store.get(&v.value_cid).is_none() {
+            return Err(format!("service result {}: dangling reference", cid.get_inner()));
+        }
+    }
+    Ok(())
+}
